@@ -62,3 +62,9 @@ SUITES["retire"] = dict(mc="MC_Seq")
 PLAN["C02"] = dict(quick=["subs", "multi", "fin", "tsubs"], thorough=["subs", "multi", "fin", "tsubs", "subject", "share", "behavior"])
 PLAN["C17"] = dict(quick=["subs", "multi", "tsubs"], thorough=["subs", "multi", "tsubs"])
 PLAN["C16"] = dict(quick=["retire"], thorough=["retire"])
+
+SUITES["tasks"] = dict(mc="MC_Seq")
+PLAN["C19"] = dict(quick=["tasks"], thorough=["tasks"])
+
+SUITES["conv"] = dict(mc="MC_Seq")
+PLAN["C14"] = dict(quick=["conv"], thorough=["conv"])
